@@ -14,6 +14,7 @@ import os
 from typing import TYPE_CHECKING, Any
 
 from exabgp.util import hexstring
+from exabgp.util import peertext
 from exabgp.reactor.api.response.json import JSON
 from exabgp.reactor.api.response.text import oneline
 from exabgp.version import json as json_version
@@ -187,7 +188,7 @@ class V4Text:
         # free text the peer chose, and not promised to be UTF-8
         raw = operational.data
         data = bytes(raw).decode('utf-8', 'replace') if isinstance(raw, (bytes, bytearray, memoryview)) else raw
-        return f'neighbor {neighbor.session.peer_address} {direction} operational {operational.name} afi {operational.afi} safi {operational.safi} advisory "{oneline(data)}"{self._header_body(header, body)}'
+        return f'neighbor {neighbor.session.peer_address} {direction} operational {operational.name} afi {operational.afi} safi {operational.safi} advisory "{oneline(peertext(data))}"{self._header_body(header, body)}'
 
     def _operational_query(
         self, neighbor: 'Neighbor', direction: str, operational: 'OperationalFamily', header: bytes, body: bytes
